@@ -238,6 +238,7 @@ func (t *Target) WaitUntilHealthy(timeout time.Duration) bool {
 
 func (t *Target) HealthCheckCompleted(success bool) {
 	var previousState, newState TargetState
+	becameHealthy := false
 
 	t.withInflightLock(func() {
 		previousState = t.state
@@ -247,7 +248,7 @@ func (t *Target) HealthCheckCompleted(success bool) {
 			switch t.state {
 			case TargetStateAdding:
 				t.state = TargetStateHealthy
-				close(t.becameHealthy)
+				becameHealthy = true
 			default:
 				t.state = TargetStateHealthy
 			}
@@ -266,6 +267,12 @@ func (t *Target) HealthCheckCompleted(success bool) {
 		if t.stateConsumer != nil {
 			t.stateConsumer.TargetStateChanged(t)
 		}
+	}
+
+	// Only release anyone waiting for us to become healthy once the state
+	// consumer has been told, so that they find us in rotation.
+	if becameHealthy {
+		close(t.becameHealthy)
 	}
 }
 
